@@ -359,11 +359,16 @@ def decode_text_digits(code, s):
         names = {}
         # \x01 + one private character per alphabet command = "the next character has THIS typeface"
         s = _TEX_STYLE_RX.sub(lambda m: "\x01" + chr(0xE100 + names.setdefault(m.group(0).strip(), len(names))), s)
-        # a styled number = digits of ONE typeface, optionally a decimal mark (plain or in that typeface) and more digits of the same typeface;
-        # plain digits and digits of another typeface never join it (the mark between two differently styled numbers is a list comma)
-        rx = re.compile(r"(\x01.)[0-9](?:\s*\1[0-9])*(?:\s*(?:\1)?[.,]\1[0-9](?:\s*\1[0-9])*)?")
-        s = rx.sub(lambda m: " " + re.sub(r"\x01.|\s", "", m.group(0)) + " ", s)
-        s = re.sub(r"\x01.", " ", s)
+        # Only what the alphabet commands added is undone, nothing is inserted: (1) digits of ONE typeface that follow each other are joined
+        # (the blanks between them come from the commands); (2) a decimal mark between digits of one typeface loses the blank in front of it
+        # and the command after it; (3) the remaining markers are dropped.  Plain digits, digits of another typeface and list commas stay
+        # exactly as LaTeX printed them.
+        prev = None
+        while prev != s:
+            prev = s
+            s = re.sub(r"((\x01.)[0-9]+)\s*\2([0-9])", r"\1\3", s)
+        s = re.sub(r"((\x01.)[0-9]+)\s*(?:\2)?([.,])\2([0-9]+)", r"\1\3\4", s)
+        s = re.sub(r"\x01.", "", s)
     return s
 
 
